@@ -165,6 +165,14 @@ def run(chk):
 
 
 def r093(chk, w, b, it, outs, rn):
+    # the bucket table has exactly dict_word_max_len rows: the record builder derives a word's bucket from the table length
+    # (min(word_len, table.len())), which is the trainer's feature length min(word_len, dict_word_max_len) only for that size
+    sizes = set()
+    for e, o in C.all_calls(outs, lambda e: (e[2] or "").endswith("from_elem") and len(e[3]) > 1 and e[3][0][0] == "agg"):
+        sizes.add(C.show_arg(forms.Normalizer(it, o, rename=rn), e[3][1]))
+    chk.ob("R09.3", "train:bucket-table-size", sizes == {"arg1.dict_word_max_len"},
+           "the table of per-length dictionary weights is allocated with %s rows; expected dict_word_max_len: with another size, words longer than the last bucket are given the "
+           "weights of a row that no feature was learned for" % sorted(sizes), site=C.site(b), sample={"sizes": sorted(sizes)})
     # DictionaryWord arm: position -> tuple field
     DP = "vaporetto::trainer::DictionaryWordPosition"
     got = {}
